@@ -20,6 +20,12 @@ META["technique"] += "; slot allocator of the index-based manager (package ALLOC
 META["level_text"] += " Slot allocator (package ALLOC, C14_alloc_*, 10 theorems; invariant and partition theorems under C05_alloc_*): for every state reachable under ANY interleaving of the threads' prepare / guard drop / add_node / free_slot / collector-epilogue actions: add_node is never stuck (never_stuck); it fails if and only if no free slot is reachable by the calling thread - no shared list, nothing left of the slot array, nothing in its own list or range (oom_iff), so that after a failure every free slot is parked in ANOTHER thread's local list or range and no slot was changed (oom_only_parked); when no other thread holds slots, out-of-memory iff all capacity slots hold a node (oom_single) and add_node succeeds as soon as one slot is free (retry_succeeds); in managers that never pre-allocate a chunk (capacity <= CHUNK_SIZE) add_node never parks a slot with a thread (no_hoard_scarce); the behaviour before /repo 45ba7ac (take_all_refuted), the seeded capacity-check-first order (cap_first_refuted) and the node count drift of failed allocations (oom_drift_refuted, fixed in /repo 0ceb9c4) violate these on computed schedules. Tie: hooks build of the harness, case parameter alloc=1: every logged get_slot_from_shared / add_node result / free_slot / guard drop / collector epilogue of sequential histories on 5..40 slots, parallel blocks, nested sessions (non-local branch), fill-drop-gc-retry cases, MTBDD terminal-store retry cases and managers with 1-3 chunks of 65536 slots is replayed on the extracted model: OutOfMemory where the model reaches a slot = violation (prop=C14), a slot handed out twice / freed twice / a shared node count that differs from the number of handed-out slots at a quiescent point = violation (prop=C05), any other difference = correspondence failure."
 META["level_note"] += " Slot allocator model (package ALLOC): u32 / i32 / i64 overflow, the contents of nodes, the condition variable of the collector thread (only gc_state) and memory ordering are not modelled; one get_slot_from_shared / free_slot / guard drop is one atomic action (they run under Store::state); the replay orders the critical sections by the order in which their events were logged (logged with the lock held); the hand-over of a local list inside free_slot is logged before and after its critical section (seeded hunks forbid a hook inside), an overlap with another thread's critical section is resolved by the number of shared lists the other event reports; chunk pre-allocation, the initialised range, taking a whole shared list and the hand-over are only reached by the cases with capacity > 65536."
 
+# package C14z (bounded-store models of the remaining operations): coq/Mgr/OomBddQ*.v, OomBcddQ*.v, OomZbddV*.v, OomTdd*.v,
+# theorems C14_bddq_* / C14_bcddq_* / C14_zbddv_* / C14_tdd_* (sections 14-17 of coq/Props/C14.v)
+META["technique"] += "; package C14z: the same error-monad models + theorem families + op-by-op prediction for plain BDD and BCDD quantification (forall / exists / unique), apply-and-quantify (8 operators, BCDD through its dispatchers), restrict and substitution incl. substitute_prepare (coq/Mgr/OomBddQ.v, OomBcddQ.v on top of the C04 models DD/Quant.v, DD/QuantBcdd.v; inner apply_not / apply_bin / apply_ite calls are the bounded algorithms of Oom.v / OomBcdd.v), ZBDD subset0 / subset1 / change, restrict incl. restrict_base, var_edge / not_var_edge with their don't-care loops (OomZbddV.v), and the TDD rule set: not, 8 operators, ite, var (OomTdd.v on top of DD/ApplyTdd.v)"
+META["level_text"] += " Package C14z (C14_bddq_*, C14_bcddq_*, C14_zbddv_*, C14_tdd_*; 48 theorems): ONE statement per family for EVERY call k of the interface (qcall = KQuant q f vars | KApplyQuant q op f g vars | KRestrict f vars | KSubst f pairs id; cqcall the same on edges; zvcall = ZVSubset op f var | ZVRestrict f vars | ZVVar var | ZVNotVar var; tcall = TCNot f | TCBin op f g | TCIte f g h), run_c = the bounded run of the *_edge entry point, run_u = the unbounded entry point of the C04 / C09 / C11 model: never_wrong (GOk s' c' r => run_u = Some (s', c', r), no hypothesis), retry and monotone (no hypothesis; monotone also across recursors), never_wrong_sem (under the kind's invariant and valid operands a result leaves the invariant, intact / intact_c / intact_z / intact_t and denotes the specification: quant (qfun q) vs .. / restrict_s lits .. / subst_s .. for every reading of vars as a variable set / cube, f_sub on families, the Boolean cofactor, the variable, the fixed three-valued tables), safe (GOom s' c' => invariant incl. the quantification cache invariant, extends, intact*, store full), no_panic, exact (the call fails IF AND ONLY IF the table of the unbounded run does not fit), outcome_recursor_indep (either recursor at every depth of the own recursion AND of the inner apply calls; not tdd: sequential code), tdd var_exact / var_never_wrong, failed_meaning / intact_meaning, the decision theorems of the call-hypothesis checkers (cqcall_ok_b, zvcall_ok_b) and the cache-less tie instances (bcddq_nc_exact, tdd_nc_exact: hypotheses = the two checkers the driver evaluates), non-vacuity examples with garbage after a failure (substitute_prepare failing after the first variable node; var_edge / restrict_base loops failing in the middle) and exactness instantiated for all capacities. New in the proofs: a failed inner apply call only added apply-coded cache entries (frame walk apply_*_c_cfr / capply_*_c_frame), so the quantification cache invariant survives it. Tie (C14 driver, cap < 100): EXISTS / FORALL / UNIQUE / AEX / AFA / AUQ / RESTRICT / SUBST (bdd, bcdd; the harness's own cube construction t, var / not_var, and is replayed step by step through the bounded model; a substitution's replacement functions are read from the snapshot), SUBSET0 / SUBSET1 / CHANGE / VAR / NVAR / RESTRICT (zbdd), T3NOT / T3AND .. T3IMPS / T3ITE / T3VAR (tdd; td_ok_b on every snapshot): out-of-memory or not, stored nodes afterwards, value table of the result (tdd: over all 3^n assignments)."
+META["level_note"] += " Package C14z: the budget models now cover everything listed above as 'NOT modelled with a budget' EXCEPT pick_cube_dd / pick_cube_dd_set (BDD / BCDD / ZBDD) and the MTBDD value-table composite; the sentence 'TDD: no bounded (budget) model' above is superseded (the TDD rule set has one; it still has no ownership model). Inner calls: which recursor an inner apply call uses at which of its depths is a second parameter (pin); the code continues to count its remaining parallel depth down inside the inner call - an instance; all theorems hold for every par and pin. The ZBDD restrict model (like DD/ZbddBool.v) keys its cache entry by (f, vars) only, the code additionally by num_levels (fix f8637cd): irrelevant for out-of-memory behaviour, invisible to the cache-less tie. No ownership / recovery theorems for the new calls beyond C14x's quant_o / subst_o. Quick tier: a script with more than 40 capacities is swept at every capacity of the first 32 and the last five and at every third one in between (thorough: all)."
+
 ALLOWED_AXIOMS = ()
 
 C14_VOS = ["Base/Conv.vo", "DD/Table.vo", "DD/TableExtra.vo", "DD/Sem.vo", "DD/Build.vo", "DD/Apply.vo", "Mgr/Oom.vo",
@@ -27,7 +33,7 @@ C14_VOS = ["Base/Conv.vo", "DD/Table.vo", "DD/TableExtra.vo", "DD/Sem.vo", "DD/B
            "Num/I64.vo", "DD/ApplyBcdd.vo", "DD/FamSpec.vo", "DD/ZbddOps.vo", "DD/ZbddBool.vo", "DD/ApplyMtbdd.vo",
            "Mgr/OomGen.vo", "Mgr/OomBcdd.vo", "Mgr/OomZbdd.vo", "Mgr/OomMtbdd.vo",
            "DD/Quant.vo", "Mgr/OomBddQ.vo", "DD/QuantBcdd.vo", "Mgr/OomBcddQ.vo", "Mgr/OomZbddV.vo",
-           "DD/Tdd.vo", "DD/ApplyTdd.vo", "Mgr/OomTdd.vo"]
+           "DD/Tdd.vo", "DD/ApplyTdd.vo", "Mgr/OomTdd.vo", "DD/Pick.vo", "Mgr/OomPick.vo"]
 PROPS = ["C14", "C01", "C02", "C03", "C04", "C05", "C09", "C10", "C11", "C13"]
 BIG = 1 << 14
 
@@ -252,6 +258,29 @@ def script_zbdd(rng, nv, length):
     return ops
 
 
+def script_zbdd_ite(rng, nv):
+    """ZBDD if-then-else with operands whose roots lie on different levels (apply_ite's binary_ternary branch: one
+    of g / h has no node on f's top level because it implies 'not x0'), sequential recursor"""
+    ops = [f"VARS {nv}"]
+    n = [0]
+
+    def fresh():
+        n[0] += 1
+        return n[0] - 1
+
+    f = fresh(); ops.append(f"{rng.choice(['TT', 'TTI'])} h{f} {nv} {ddgen.rand_tt(rng, nv) | 2:x}")
+    g = fresh(); ops.append(f"{rng.choice(['TT', 'TTI'])} h{g} {nv} {ddgen.rand_tt(rng, nv) | 2:x}")
+    nx = fresh(); ops.append(f"NVAR h{nx} 0")
+    for _ in range(rng.randrange(2, 4)):
+        t = fresh(); ops.append(f"{rng.choice(['TT', 'TTI'])} h{t} {nv} {ddgen.rand_tt(rng, nv):x}")
+        h = fresh(); ops.append(f"AND h{h} h{nx} h{t}")          # implies not x0: no node on the top level
+        a, b = (g, h) if rng.random() < 0.5 else (h, g)
+        ops.append(f"ITE h{fresh()} h{f} h{a} h{b}")
+        if rng.random() < 0.5:
+            g = fresh(); ops.append(f"XOR h{g} h{f} h{t}")
+    return ops
+
+
 def script_mtbdd(rng, nv, length):
     ops = [f"VARS {nv}"]
     live = []
@@ -353,6 +382,7 @@ def gen_scripts(ctx):
         for threads in (1, 2, 8):
             for length in (5, 8):
                 res.append((f"s{sid}", "zbdd", threads, 4, script_zbdd(rng, 4, length))); sid += 1
+        res.append((f"s{sid}", "zbdd", 1, 4, script_zbdd_ite(rng, 4))); sid += 1
         for threads in (1, 2, 8):
             res.append((f"s{sid}", "mtbdd", threads, 3, script_mtbdd(rng, 3, 6))); sid += 1
         # TDD (package TDDx): the rule set is sequential; the worker count only sizes the manager's pool
@@ -457,7 +487,7 @@ def run(ctx):
     binp, drv, drv2 = build(ctx)
     scripts = gen_scripts(ctx)
     need = measure(ctx, binp, scripts)
-    cases = sweep_cases(scripts, need, max_span=None if ctx.tier == "thorough" else 32)
+    cases = sweep_cases(scripts, need, max_span=None if (ctx.tier == "thorough" or os.environ.get("C14_FULL_SWEEP")) else 32)
     ns = sorted(n for n, _ in need.values())
     vf.log(f"C14: {len(scripts)} scripts, node needs min {ns[0]} / median {ns[len(ns) // 2]} / max {ns[-1]}, {len(cases)} sweep cases")
     # pass 1: the generic DD driver (spec comparison of every successful op, audits on every snapshot)
@@ -528,6 +558,7 @@ def run(ctx):
                    "model_predicted_oom_with_garbage_subset_restrict_zbdd": nt("model_oom_with_garbage_z_zbdd"),
                    "model_predicted_oom_with_garbage_tdd": nt("model_oom_with_garbage_z_tdd"),
                    "call_hypothesis_checks_bcdd": nt("chk_cqcall_ok"), "call_hypothesis_checks_zbdd": nt("chk_zvcall_ok"),
+                   "call_hypothesis_checks_pick": nt("chk_pcall_ok"), "model_predictions_pick_cube_dd": nt("predictions_pick"),
                    "tier": ctx.tier, "props_reported": PROPS, "alloc_stage": alloc_cov, "alloc_stage_rule": alloccommon.RULE},
         assumptions=[
             "snapshots are taken through the public Manager/LevelView/InnerNode API under the exclusive manager lock; a bug in those accessors is in the trusted base",
